@@ -110,6 +110,15 @@ def case_cutout(ctx, geom, ns, length, offset, nwf, add_nan):
         want = [j for j in range(nc) if np.hypot(*(xy[j] - xy[c])) <= radius]
         row = [int(v) for v in nbr[c]]
         ctx.oblige("neighbours_are_the_sites_within_radius_ascending_then_padding", row == want + [nc] * (nbr.shape[1] - len(want)), detail={"channel": c, "row": row, "want": want})
+    # the table does not depend on how the coordinates are stored (float64 / float32 / integer micrometres of a full probe)
+    import neuropixel
+    h = neuropixel.trace_header(version=1)
+    full = np.c_[h["x"], h["y"]].astype(np.float64)
+    ref = u.make_channel_index(full, radius=200.0)
+    for dt in (np.float32, np.int64, np.int32, np.int16, np.uint16):
+        other = ctx.call("make_channel_index_" + np.dtype(dt).name, u.make_channel_index, full.astype(dt), radius=200.0)
+        ctx.oblige("neighbour_table_does_not_depend_on_the_coordinate_dtype", np.shape(other) == np.shape(ref) and bool(np.array_equal(np.asarray(other), ref)),
+                   detail={"dtype": np.dtype(dt).name, "shape": str(np.shape(other)), "expected_shape": str(np.shape(ref))})
     vals = [[ctx.real(f"a{c}_{t}") for t in range(ns)] for c in range(nc)]
     flat = [e for r in vals for e in r]
     if add_nan:
@@ -460,6 +469,22 @@ def twins(tier):
 
 def replay(case, params, cex):
     m = cex["model"]
+    if case.startswith("cutout") and cex["obligation"].startswith(("neighbour_table_does_not_depend", "make_channel_index_")):
+        return """
+import ibldsp.utils as u, neuropixel
+h = neuropixel.trace_header(version=1)
+full = np.c_[h['x'], h['y']].astype(np.float64); ref = u.make_channel_index(full, radius=200.0)
+bad = []
+for dt in (np.float32, np.int64, np.int32, np.int16, np.uint16):
+    try:
+        other = u.make_channel_index(full.astype(dt), radius=200.0)
+    except Exception as e:
+        bad.append((np.dtype(dt).name, repr(e))); continue
+    if other.shape != ref.shape or not np.array_equal(other, ref): bad.append((np.dtype(dt).name, other.shape, ref.shape))
+print(bad)
+if bad: reproduced(f'make_channel_index of the NP1 geometry depends on the dtype of the coordinates: {bad}')
+not_reproduced()
+"""
     if case.startswith("cutout"):
         g = params["geom"]
         ns, length, offset, nwf = params["ns"], params["length"], params["offset"], params["nwf"]
